@@ -119,6 +119,9 @@ class Facts:
             for c in d['consts']:
                 self.consts[qualify(c['path'], cname)] = c
         self.n_bodies = len(self.bodies)
+        # functions that do not exist in the baseline decomposition are inlined into their callers (xl/inline.py)
+        from . import inline
+        self.inlined = inline.inline_new_functions(self) if os.path.exists(inline.BASELINE) else {}
 
     # ---- anchors (fail closed) -------------------------------------------------------------
     def body(self, qpath):
